@@ -33,6 +33,31 @@ def suppress_logging():
         logging.disable(logging.NOTSET)
 
 
+@contextlib.contextmanager
+def preserve_logging_state():
+    """Undo changes that the SUT makes to the process-wide logging configuration.
+
+    Code under test may call ``logging.disable``, change the level of the root
+    logger, or install/remove root handlers (``logging.basicConfig``).  All of
+    this is process-global state that would otherwise silence, flood or redirect
+    Pynguin's own log output and leak from one test-case execution into the next.
+
+    Yields:
+        Nothing; restores the ``logging.disable`` level as well as level and
+        handlers of the root logger on exit.
+    """
+    root = logging.getLogger()
+    disable_level = root.manager.disable
+    level = root.level
+    handlers = list(root.handlers)
+    try:
+        yield
+    finally:
+        logging.disable(disable_level)
+        root.setLevel(level)
+        root.handlers[:] = handlers
+
+
 class OutputSuppressionContext:
     """A context manager that suppresses stdout and stderr.
 
